@@ -21,7 +21,11 @@ func VH_C18_updown() {
 	case 2: // unequal rows in the target at any record
 		k := vChoice("badrecord", 3)
 		rows := []string{"ACG", "GCG", "ACA"}
-		rows[k] = rows[k] + "A"
+		if vBool("longer") {
+			rows[k] = rows[k] + "A"
+		} else {
+			rows[k] = rows[k][:2]
+		}
 		t = []byte(">t0\n" + rows[0] + "\n>t1\n" + rows[1] + "\n>t2\n" + rows[2] + "\n")
 		list = vBool("list")
 	case 3: // invalid symbol
